@@ -250,12 +250,17 @@ func verifConsume(b Buffer, how, off, n int) (got []byte, rerr error, usedOff in
 // mismatch yields an error buffer, from which no consumer obtains any data.
 func Verif_C09_V11_ByteSlice() {
 	maxN, _, _ := verifC09Bounds()
-	ref := verifNewRef(vnd.Choose(maxN + 1))
+	ref := verifNewRefKind(vnd.Choose(maxN+1), vnd.Choose(2) == 1)
 	data := vnd.Bytes(vnd.Choose(maxN + 2))
 	backend := vnd.Choose(2) == 1
 	integ := &verifIntegrity{}
 	b := NewCASBufferFromByteSlice(ref.digest, data, verifSource(backend, integ))
 	matches := verifBytesEqual(data, ref.data)
+	if ref.bogus {
+		// a digest whose hash is the hash of no content (of any size, including 0): nothing matches it
+		vnd.Cover("slice-bogus-digest")
+		matches = false
+	}
 	_, rejected := b.(errorBuffer)
 	vnd.Assert(rejected == vnd.Not(matches), "byte slice CAS buffer: accepted mismatching content or rejected the object's own content")
 	if backend {
